@@ -127,7 +127,7 @@ impl Prop for C02 {
     }
     fn runs(&self, tier: Tier) -> u64 {
         match tier {
-            Tier::Quick => 240,
+            Tier::Quick => 480,
             Tier::Thorough => 4000,
         }
     }
